@@ -11,7 +11,7 @@
 Require Import Floats.SpecFloat.
 Require Import ZArith List Bool.
 From Flocq Require Import Core BinarySingleNaN.
-From Dasp Require Import Base.Res Base.Float Signal.Window.
+From Dasp Require Import Base.Res Base.Float Signal.Window Signal.WindowFmtGen.
 Import ListNotations.
 Open Scope Z_scope.
 
@@ -30,6 +30,7 @@ Record sfmt := mkSfmt {
   conv : f64 -> Flt;              (* f64 .to_sample::<S::Float>() *)
   smul : Smp -> Flt -> Smp;       (* Sample::mul_amp *)
   equil : Smp;
+  back : Flt -> Smp;              (* S::Float .to_sample::<S>()  (Window::<F, W> with F the sample's own format) *)
   dec : Z -> Smp; enc : Smp -> Z; encw : Flt -> Z;
 }.
 
@@ -39,11 +40,15 @@ Definition c32768 : f32 := F32.of_Z 32768.
 Definition i16_to_f32 (s : Z) : f32 := F32.div (F32.of_Z s) c32768.
 Definition f32_to_i16 (x : f32) : Z := F32.to_Z_sat (-32768) 32767 (F32.mul x c32768).
 
-Definition fmt_f32 : sfmt := mkSfmt f32 f32 f64_to_f32 F32.mul F32.zero F32.of_bits F32.bits F32.bits.
-Definition fmt_f64 : sfmt := mkSfmt f64 f64 (fun x => x) F64.mul F64.zero F64.of_bits F64.bits F64.bits.
+Definition fmt_f32 : sfmt := mkSfmt f32 f32 f64_to_f32 F32.mul F32.zero (fun x => x) F32.of_bits F32.bits F32.bits.
+Definition fmt_f64 : sfmt := mkSfmt f64 f64 (fun x => x) F64.mul F64.zero (fun x => x) F64.of_bits F64.bits F64.bits.
 (* mul_amp: let self_f = self.to_float_sample(); (self_f * amp).to_sample() *)
 Definition fmt_i16 : sfmt :=
-  mkSfmt Z f32 f64_to_f32 (fun s w => f32_to_i16 (F32.mul (i16_to_f32 s) w)) 0 (fun z => z) (fun z => z) F32.bits.
+  mkSfmt Z f32 f64_to_f32 (fun s w => f32_to_i16 (F32.mul (i16_to_f32 s) w)) 0 f32_to_i16 (fun z => z) (fun z => z) F32.bits.
+(* any of the fourteen formats (code of SampleFmt.sfmt_code), through the generated, specification-guarded
+   sample operations of Signal/WindowFmtGen.v; samples and window values travel Z-encoded *)
+Definition fmt_gen (c : Z) : sfmt :=
+  mkSfmt Z Z (gen_conv c) (gen_smul c) (gen_equil c) (gen_back c) (fun z => z) (fun z => z) (fun z => z).
 
 (* ---- window function of a run ---- *)
 Inductive wkind := WHann | WRect.
@@ -62,8 +67,9 @@ Definition wfun_of (k : wkind) (tbl : list (Z * Z)) : f64 -> f64 :=
   end.
 
 (* ---- cases ---- *)
-Inductive fkind := KF32 | KF64 | KI16.
-Definition fmt_of (k : fkind) : sfmt := match k with KF32 => fmt_f32 | KF64 => fmt_f64 | KI16 => fmt_i16 end.
+Inductive fkind := KF32 | KF64 | KI16 | KGen (c : Z).
+Definition fmt_of (k : fkind) : sfmt :=
+  match k with KF32 => fmt_f32 | KF64 => fmt_f64 | KI16 => fmt_i16 | KGen c => fmt_gen c end.
 
 (* provided Iterator methods exercised on the three iterators (semantics: Section RunI below) *)
 Inductive iop :=
@@ -129,6 +135,14 @@ Fixpoint window_take (m : nat) (p : phase A64) : list Z :=
   | O => []
   | S k => let r := window_next A64 wf (Flt F) (conv F) nch p in map (encw F) (fst r) ++ window_take k (snd r)
   end.
+(* the window iterator in the frame's OWN format: Window::<F, W>::new(b).take(m), flattened
+   (v.to_sample::<S::Float>() and then .to_sample::<S>()) *)
+Fixpoint window_take_own (m : nat) (p : phase A64) : list Z :=
+  match m with
+  | O => []
+  | S k => let r := window_next A64 wf (Flt F) (conv F) nch p in
+           map (fun x => enc F (back F x)) (fst r) ++ window_take_own k (snd r)
+  end.
 End Run.
 
 Definition f64_phases (b m : nat) : list Z := map F64.bits (phases A64 m (window_new A64 b)).
@@ -142,6 +156,7 @@ Definition run_wcase (wk : wkind) (fk : fkind) (nch b h maxn : Z) (data : list (
   let wf := wfun_of wk (combine ph wv) in
   let wvals := map (fun p => F64.bits (wf (F64.of_bits p))) ph in
   (100 :: ph) :: (101 :: wvals) :: (102 :: window_take F wf (n nch) m (window_new A64 (n b))) :: (103 :: wvals) ::
+  (104 :: window_take_own F wf (n nch) m (window_new A64 (n b))) ::
   run_w F wf (n nch) (n maxn) (w_new (map (map (dec F)) data) (n b) (n h)).
 
 (* dasp_window::{Hann, Rectangle} through the Window trait on f32 / i16 / f64 phases.
